@@ -148,13 +148,16 @@ var c13Optional = map[string][]string{
 	"ValueSpec": {"Type"}, "TypeSpec": {"TypeParams"}, "FuncDecl": {"Recv", "Body"}, "ArrayType": {"Len"}, "CommClause": {"Comm"},
 }
 
-func c13Templates() []gen.Template { return gen.Templates() }
+// the canonical corpus plus valid files that are not gofmt's output (explicit empty statements, parentheses)
+func c13Templates() []gen.Template {
+	return append(append([]gen.Template{}, gen.Templates()...), gen.Load("noncanonical.txt")...)
+}
 
 func init() {
 	core.Register(&core.Prop{
 		ID:    "C13",
 		Level: "model_checking",
-		Rule: "for every corpus tree: Inspect/Walk visit logs under every single-node pruning predicate (one run per visited node; thorough: every pair of nodes), every node-type predicate, every removal of one optional child and of all at once, the traversal rooted at every inner node instead of the file, " +
+		Rule: "for every corpus tree (canonical and non-canonical corpus): Inspect/Walk visit logs under every single-node pruning predicate (one run per visited node; thorough: every pair of nodes), every node-type predicate, every removal of one optional child and of all at once, the traversal rooted at every inner node instead of the file, " +
 			"a visitor that hands a different visitor to each subtree, and a 3-file Package; oracle = reflection-derived child lists (exactly once, parent first, nil after children, pruned subtrees skipped) " +
 			"and go/ast.Inspect of the original ast mapped through the decorator's node map; state = (tree, predicate); non-trivial = predicate that prunes a node with children",
 		Assumptions: []string{"go/ast.Inspect of this toolchain is the reference traversal order", "struct field order of dst node types equals source order of children (checked against go/ast on every tree)"},
